@@ -595,6 +595,40 @@ def inherited_settings(idx: Index):
                 out.append((site, key, "OK", f"optional private marker `{attr}` (set by plugins at run time)", f.qualname, attr))
             else:
                 out.append((site, key, "VIOLATION", f"`{src(c, 70)}`: neither IRContext nor its bases define `{attr}`{' on the builder' if on_builder else ''}, so every nested scope silently gets the default {src(c.args[2], 20)} instead of the parent's setting", f.qualname, attr))
+    # the converter facade handed to function lowerings: SimpleNamespace(<keywords>) built by make_converter_facade — a setting
+    # read from it with a default (`getattr(converter, "enable_double_precision", False)`) must name one of those keywords
+    LD_ = "jax2onnx/converter/lowering_dispatch.py"
+    mf = idx.find_func(LD_, "make_converter_facade")
+    facade: Set[str] = set()
+    if mf is not None:
+        for c in ast.walk(mf.node):
+            if isinstance(c, ast.Call) and (call_name(c) or "").endswith("SimpleNamespace"):
+                facade |= {k.arg for k in c.keywords if k.arg}
+    if facade:
+        for m in idx.product_modules():
+            if "converter" not in m.src:
+                continue
+            for f in m.funcs.values():
+                a_ = f.node.args  # type: ignore[attr-defined]
+                if "converter" not in [x.arg for x in a_.posonlyargs + a_.args + a_.kwonlyargs]:
+                    continue
+                for c in ast.walk(f.node):
+                    if not (isinstance(c, ast.Call) and (call_name(c) or "") == "getattr" and len(c.args) == 3 and isinstance(c.args[1], ast.Constant) and isinstance(c.args[1].value, str)):
+                        continue
+                    obj = dotted(c.args[0]) or ""
+                    if obj.split(".")[0] != "converter":
+                        continue
+                    attr = c.args[1].value
+                    pool = facade if obj == "converter" else (bld_attrs if obj.endswith(".builder") else ctx_attrs if obj.endswith(".ctx") else None)
+                    if pool is None:
+                        continue
+                    key = f"{m.rel}::{f.qualname}::inherits::{obj}.{attr}"
+                    site = f"{m.rel}:{c.lineno}"
+                    if attr in pool:
+                        out.append((site, key, "OK", f"`{obj}.{attr}` exists", f.qualname, attr))
+                    else:
+                        out.append((site, key, "VIOLATION", f"`{src(c, 70)}`: the converter facade is SimpleNamespace({', '.join(sorted(facade))}) and has no `{attr}`, so the default {src(c.args[2], 20)} is used "
+                                    "whatever the export's setting is", f.qualname, attr))
     return out
 
 
